@@ -26,7 +26,8 @@ def norm(s):
 class C20(core.Check):
     pid = 'C20'
     unproved = [
-        'DynamicNumpyArray = list composition inside the candle store (C18) is not mechanised',
+        'DynamicNumpyArray = list composition is proved for add_candle / batch_add_candle (addCandleD_refines, batchAddD_refines); '
+        'for add_multiple_1m_candles (arr[-k:] = rows) it is still the C18 theorems plus the correspondence pass',
     ]
     rule = ('correspondence: the real _fill_absent_candles on every bitmask of present minutes (intervals up to 7 minutes '
             'exhaustively, longer ones seeded) and the real candle store (add_candle with new / repeated / older / unknown / '
@@ -35,7 +36,8 @@ class C20(core.Check):
             '(one candle per minute, increasing timestamps, provided candles unchanged, flat fill at previous close / first '
             'open; stored timestamps strictly increasing after every add, new appended, same timestamp replaced); '
             'non-trivial = at least one missing minute / at least one repeated or older candle; distinct = distinct inputs')
-    assumptions = ['the store model keeps candles in plain lists; DynamicNumpyArray = list is property C18']
+    assumptions = ['the store model keeps candles in plain lists; that add_candle on the DynamicNumpyArray model is that list '
+                   'algorithm is proved here (composition with C18), for add_multiple_1m_candles it is C18 alone']
 
     # ------------------------------------------------------------------ fill absent
     def fa_cases(self, boost):
@@ -101,7 +103,8 @@ class C20(core.Check):
         for _ in range(self.budget(150, 3000, boost)):
             seq = self.add_sequence(r.randint(1, 30))
             tf = r.choice(['1m', '1m', '5m'])
-            store.candles.init_storage(r.choice([5, 50]))
+            bucket = r.choice([5, 50])
+            store.candles.init_storage(bucket)
             if tf != '1m':
                 # a larger timeframe is stored only for routes that use it: create the array by hand
                 from jesse.libs import DynamicNumpyArray
@@ -120,6 +123,10 @@ class C20(core.Check):
             lines.append(f'st addseq {len(seq)} ' + ' '.join(cw(c) for c in seq))
             expect.append(py)
             res.count('add_candle-seq')
+            # the same calls through the model of add_candle ON THE ARRAY CLASS (Jesse/StoreD.lean; bucket as created)
+            lines.append(f'st addseqd {bucket if tf == "1m" else 10} {len(seq)} ' + ' '.join(cw(c) for c in seq))
+            expect.append(py)
+            res.count('add_candle-seq-on-array-model')
         # add_multiple_1m_candles
         for _ in range(self.budget(60, 1500, boost)):
             store.candles.init_storage(50)
